@@ -78,6 +78,8 @@ pub struct SoupWalk {
     pub max_len: u32,
     pub count: u64,
     pub seed: u64,
+    /// raw: the alphabet elements are concatenated without separators (character-level text)
+    pub raw: bool,
 }
 
 impl Suite for SoupWalk {
@@ -89,7 +91,7 @@ impl Suite for SoupWalk {
         let n = rng.gen_range(self.min_len..=self.max_len);
         let mut text = String::new();
         for k in 0..n {
-            if k > 0 {
+            if k > 0 && !self.raw {
                 text.push_str(match rng.gen_range(0..10) {
                     0 => "\n",
                     1 => "",
